@@ -218,3 +218,107 @@ def pause_rule(ctx: Ctx, rule: str) -> None:
     ctx.check(any(a.id in r for a in acq) and not any(a.id in r2 for a in acq), rule, pu, "in-memory pause takes the lock iff it is free",
               "idempotent pause (never blocks on its own lock)", "in-memory pause() acquires its lock when already paused (deadlock) or not when free",
               instance="in-memory pause idempotent")
+
+
+# ----------------------------------------------------------------------------- pause lock protocol (consumers with an asyncio.Lock as pause flag)
+def pause_lock_protocol(ctx: Ctx, rule: str) -> None:
+    """The pause flag is an asyncio.Lock that pause() takes and unpause() gives back - possibly from different tasks, with nobody 'owning' it.
+    Everybody else may only *pass through* it: acquire and release again before the next suspension point. A reader that keeps the lock across
+    an await (e.g. `async with lock: await fetch()`) makes pause() block behind a fetch and lets unpause() release a lock the fetch task still
+    believes to hold - its own release then raises and the fetch task dies, which stalls consumption."""
+    from .shared import await_map
+
+    n_locks = 0
+    n_sites = 0
+    for cq in (C.INMEM_CONS, C.REDIS_CONS):
+        cls = ctx.prog.cls(cq)
+        init = ctx.func(f"{cq}.__init__")
+        locks = sorted({dotted(t) for a in ast.walk(init.node) if isinstance(a, (ast.Assign, ast.AnnAssign)) and a.value is not None
+                        and isinstance(a.value, ast.Call) and (dotted(a.value.func) or "").split(".")[-1] == "Lock"
+                        for t in (a.targets if isinstance(a, ast.Assign) else [a.target]) if (dotted(t) or "").startswith("self.")})
+        # the pause flag is the lock pause() acquires
+        pause = ctx.func(f"{cq}.pause")
+        taken = {dotted(c.func.value) for c in ast.walk(pause.node) if isinstance(c, ast.Call) and isinstance(c.func, ast.Attribute) and c.func.attr == "acquire"}
+        flags = [l for l in locks if l in taken]
+        if not ctx.check(len(flags) == 1, rule, pause, f"{cls.name}.pause takes the pause lock", "pause flag identified",
+                         f"{cls.name}.pause() does not acquire the consumer's pause lock (locks {locks}, acquired {sorted(map(str, taken))}): pausing has no effect",
+                         instance=f"{cls.name}: pause flag"):
+            continue
+        flag = flags[0]
+        n_locks += 1
+        for fn in ctx.prog.iter_functions():
+            if fn.cls is None or fn.cls.qualname != cq or fn.name in ("pause", "unpause", "__init__"):
+                continue
+            if not any(isinstance(x, ast.Attribute) and dotted(x) == flag for x in ast.walk(fn.node)):
+                continue
+            g = ctx.cfg(fn)
+            aw = await_map(g)
+            rel = [n for n in g.nodes if (n.kind == "call" and isinstance(n.ast, ast.Call) and isinstance(n.ast.func, ast.Attribute) and n.ast.func.attr == "release"
+                                          and dotted(n.ast.func.value) == flag)
+                   or (n.meta.get("with_exit") and dotted(getattr(n.stmt, "items", [None])[0].context_expr if getattr(n.stmt, "items", None) else None) == flag)]
+            starts = []
+            for n in g.nodes:
+                if n.kind == "call" and isinstance(n.ast, ast.Call) and isinstance(n.ast.func, ast.Attribute) and n.ast.func.attr == "acquire" and dotted(n.ast.func.value) == flag:
+                    starts.append((n, aw.get(n.id, n)))
+                elif n.meta.get("with_enter") and dotted(n.ast) == flag:
+                    starts.append((n, n))
+            for site, start in starts:
+                n_sites += 1
+                susp = [x.id for x in g.nodes if flow.is_suspension(x) and x.id != start.id]
+                ok = flow.must_pass(g, start.id, susp + [g.exit.id], [r.id for r in rel], flow.NORMAL_KINDS) if rel else False
+                ctx.check(ok, rule, fn, f"{fn.short()} only passes through {flag}", "acquired and released again before the next suspension point",
+                          f"{fn.short()} keeps {flag} across a suspension point ({site.label}): the lock is the pause *flag* which pause()/unpause() set and clear from the "
+                          "runner's task - a reader holding it makes pause() wait for the read in flight, and unpause() then releases the lock under the reader, whose own "
+                          "release raises RuntimeError; the fetch task dies and the consumer never delivers again (stall)", node=site,
+                          instance=f"{fn.short()}: pass-through of the pause flag")
+    ctx.floor(rule, n_locks, 2, "consumers with a pause lock")
+    ctx.floor(rule, n_sites, 1, "pass-through sites of a pause lock")
+
+
+# ----------------------------------------------------------------------------- the actor's lifetime is inside its slot
+DETACHING = {"shield", "create_task", "ensure_future", "run_coroutine_threadsafe", "gather", "wait", "as_completed", "to_thread"}
+
+
+def actor_contained(ctx: Ctx, rule: str) -> None:
+    """A slot counts one actor invocation only if the invocation ends when its processing task ends: the coroutine returned by actor.fn(...) is
+    awaited by actor_run itself - directly or as the operand of asyncio.wait_for (whose timeout cancels it). Anything that detaches it
+    (shield / create_task / ensure_future ...) lets the actor keep running after the timeout freed the slot."""
+    sites = []
+    for fn in ctx.prog.iter_functions():
+        for n in ast.walk(fn.node):
+            if isinstance(n, ast.Call) and isinstance(n.func, ast.Attribute) and n.func.attr == "fn" and dotted(n.func.value) in ("actor", "actor_data", "self._actor_data"):
+                sites.append((fn, n))
+    ctx.floor(rule, len(sites), 1, "actor invocation sites")
+    for fn, call in sites:
+        parent = {}
+        for a in ast.walk(fn.node):
+            for ch in ast.iter_child_nodes(a):
+                parent[id(ch)] = a
+
+        def consumed(e, depth=0):
+            """None if e ends up awaited in place; otherwise the text of the construct that detaches / drops it."""
+            p = parent.get(id(e))
+            if isinstance(p, ast.Await):
+                return None
+            if isinstance(p, ast.Call) and e in p.args:
+                nm = (dotted(p.func) or "").split(".")[-1]
+                if nm == "wait_for" and p.args and p.args[0] is e:
+                    return consumed(p, depth)
+                return f"{unparse(p.func)}(...)" if nm in DETACHING else f"passed to {unparse(p.func)}(...)"
+            if isinstance(p, (ast.Assign, ast.AnnAssign)) and depth < 3:
+                tg = p.targets[0] if isinstance(p, ast.Assign) else p.target
+                if isinstance(tg, ast.Name):
+                    uses = [u for u in ast.walk(fn.node) if isinstance(u, ast.Name) and u.id == tg.id and isinstance(u.ctx, ast.Load)]
+                    if not uses:
+                        return "never awaited"
+                    for u in uses:
+                        r = consumed(u, depth + 1)
+                        if r is not None:
+                            return r
+                    return None
+            return f"used in {type(p).__name__}"
+
+        why = consumed(call)
+        ctx.check(why is None, rule, fn, "the actor coroutine is awaited by actor_run (directly or under wait_for)", "its lifetime ends with the processing task, timeout cancels it",
+                  f"{fn.short()} does not await the actor's coroutine in place: {why} - after a timeout or cancellation of the processing task the actor body keeps running while its slot "
+                  "is released, so more than tasks_limit actor bodies are in progress", node=call, instance=f"{fn.short()}: actor awaited in place")
